@@ -5,6 +5,7 @@ go 1.24.0
 require (
 	github.com/itchyny/go-yaml v0.0.0-20251001235044-fca9a0999f15
 	github.com/itchyny/gojq v0.0.0
+	github.com/mattn/go-runewidth v0.0.19
 )
 
 require (
@@ -12,7 +13,6 @@ require (
 	github.com/clipperhouse/uax29/v2 v2.3.0 // indirect
 	github.com/itchyny/timefmt-go v0.1.8 // indirect
 	github.com/mattn/go-isatty v0.0.20 // indirect
-	github.com/mattn/go-runewidth v0.0.19 // indirect
 	golang.org/x/sys v0.38.0 // indirect
 )
 
